@@ -266,7 +266,13 @@ func clipErr(err error) string {
 var reAttrCR = regexp.MustCompile(`=\s*("[^"<]*\r[^"<]*"|'[^'<]*\r[^'<]*')`)
 
 // matchKnown: C06-attr-literal-crlf needs a literal carriage return inside an attribute value.
+var rePIWithGT = regexp.MustCompile(`<\?(?:[^?>]|\?+[^?>])*>`)
+
 func matchKnown(c Case, err error) string {
+	// a > inside the data of a processing instruction ends it for the lexer of the dependency
+	if err != nil && rePIWithGT.MatchString(c.Src) && (strings.Contains(err.Error(), "pi ") || strings.Contains(err.Error(), "not well-formed") || strings.Contains(err.Error(), "node ")) {
+		return "C06-pi-with-gt"
+	}
 	if err != nil && strings.Contains(c.Src, "]]") && strings.Contains(err.Error(), "unescaped ]]> not in CDATA") {
 		return "C06-gt-after-brackets"
 	}
